@@ -157,15 +157,18 @@ PROPS = {
     },
     "C06": {
         "lean": ["GldapModel.Props.C06"], "audit": "GldapModel/Audit/C06.lean",
-        "inventory": ["conn.serveRequests", "conn.readRequest", "newRequest", "Request.ConnectionID", "Mux.serve", "conn.initConn", "sites.go"],
-        "streams": [{"stream": "c06", "n_quick": 40, "n_thorough": 2000, "timeout_quick": 900, "timeout_thorough": 6000}],
+        "inventory": ["conn.serveRequests", "conn.readRequest", "newRequest", "Request.ConnectionID", "Mux.serve", "conn.initConn", "sites.go",
+                      "Request.StartTLS", "sites.waitgroup"],
+        "streams": [{"stream": "c06", "n_quick": 40, "n_thorough": 2000, "timeout_quick": 900, "timeout_thorough": 6000},
+                    # an earlier handler that stays blocked across a StartTLS upgrade until a request inside the tunnel is dispatched (corpus)
+                    {"stream": "c13", "n_quick": 4, "n_thorough": 60, "timeout_quick": 900, "timeout_thorough": 6000}],
         "trusted": RUNTIME_TRUST,
         "assumptions": ["partial: that the Go scheduler actually runs a spawned goroutine is observed only by the rendezvous oracle"],
     },
     "C07": {
         "lean": ["GldapModel.Props.C07"], "audit": "GldapModel/Audit/C07.lean",
         "inventory": LIFECYCLE_FUNCS + ["Mux.serve", "ResponseWriter.Write"],
-        "streams": [{"stream": "c07", "n_quick": 18, "n_thorough": 360, "timeout_quick": 900, "timeout_thorough": 6000}],
+        "streams": [{"stream": "c07", "n_quick": 19, "n_thorough": 380, "timeout_quick": 900, "timeout_thorough": 6000}],
         "trusted": RUNTIME_TRUST,
         "assumptions": ["partial: stack exhaustion in the third-party BER reader on deeply nested input is a fatal error no recover can catch; it is outside the model and recorded as a known finding"],
     },
@@ -192,7 +195,7 @@ PROPS = {
     "C10": {
         "lean": ["GldapModel.Props.C10", "GldapModel.Props.Session"],
         "audit": ["GldapModel/Audit/C10.lean", "GldapModel/Audit/Session.lean"],
-        "inventory": ["conn.serveRequests", "conn.close", "Mux.Unbind"],
+        "inventory": ["conn.serveRequests", "conn.close", "Mux.Unbind", "baseRoute.handler", "sites.go"],
         "streams": [{"stream": "c10", "n_quick": 40, "n_thorough": 2000, "timeout_quick": 900, "timeout_thorough": 6000},
                     {"stream": "session", "n_quick": 400, "n_thorough": 40000, "timeout_quick": 900, "timeout_thorough": 6000}],
         "trusted": RUNTIME_TRUST, "assumptions": [],
